@@ -86,6 +86,11 @@ func runWithFaults(w world.World, faults []world.Fault, arena, tag string) (prob
 			}
 			continue
 		}
+		if msg, ok := res.Panicked.(string); ok && strings.HasPrefix(msg, "injected panic") {
+			// a callback of the caller's panicked and the caller caught it: the call failed, the builder is spent
+			failedAt, fired = i, true
+			continue
+		}
 		if res.Panicked != nil {
 			return fmt.Sprintf("Add call %d panicked: %v", i, res.Panicked), true, nil
 		}
@@ -182,6 +187,10 @@ func checkBundleFaults(c BundleCase) error {
 				// the registry answers successfully with an empty list: nothing can be selected
 				singles = append(singles, world.Fault{Kind: "versions-empty", N: n})
 			}
+			if k == "fetch" || k == "finder-error" {
+				// the callback panics instead of returning an error (and the caller recovers)
+				singles = append(singles, world.Fault{Kind: map[string]string{"fetch": "fetch-panic", "finder-error": "finder-panic"}[k], N: n})
+			}
 		}
 	}
 	for i, f := range singles {
@@ -190,7 +199,7 @@ func checkBundleFaults(c BundleCase) error {
 		p, fired, _ := runWithFaults(c.World, []world.Fault{f}, arena, tag)
 		fsx.RemoveAll(filepath.Join(arena, tag))
 		if !fired && p == "" {
-			return fmt.Errorf("harness: fault %v did not fire although the clean run made %d such calls", f, counts[strings.TrimSuffix(f.Kind, "-empty")])
+			return fmt.Errorf("harness: fault %v did not fire although the clean run made %d such calls", f, counts[strings.TrimSuffix(strings.TrimSuffix(f.Kind, "-empty"), "-panic")])
 		}
 		if f.N > 1 || i > 0 {
 			ev.NonTrivialKey(fmt.Sprintf("bundle:%x:%s@%d", h, f.Kind, f.N), "fault-after-successful-steps")
